@@ -254,7 +254,12 @@ def chem_run(case, seed, drv=None, inject=None, ibm=None, state=None):
         xr = np.where(stuck, np.round(before["x"]) - 0.5 + repx, before["x"])
         yr = np.where(stuck, np.round(before["y"]) - 0.5 + repy, before["y"])
         Hb = np.minimum(Hb, env.depth(xr, yr))
-    kmax = max(env.k0, env.k1 if env.kkind else env.k0, env.k0 + env.k1 * float(np.max(Hb)) if (env.kkind == 1 and n) else 0.0)
+    # largest diffusivity the scheme can sample: with `vertdiff_dz` > 0 the profile is read at the coarse depth
+    # ((z - dz/2) // dz) * dz + dz <= z + dz/2, i.e. up to half a sampling distance below the deepest particle
+    # (audit finding: without the dz/2 the precondition "step <= water depth" was claimed for steps slightly larger)
+    dzc = float(m[2]) if (m[0] == "labolle" and len(m) > 2 and m[2]) else 0.0
+    kmax = max(env.k0, env.k1 if env.kkind else env.k0,
+               env.k0 + env.k1 * (float(np.max(Hb)) + 0.5 * dzc) if (env.kkind == 1 and n) else 0.0)
     if m[0] == "const":
         amp = math.sqrt(2 * m[1]) * math.sqrt(3 * case["dt"])
     elif m[0] == "labolle":
